@@ -8,6 +8,7 @@ import (
 	"go/ast"
 	"go/constant"
 	"go/token"
+	"math/big"
 	"strconv"
 )
 
@@ -206,7 +207,22 @@ func ConstToAst(val constant.Value) ast.Expr {
 	case constant.Int:
 		return &ast.BasicLit{Kind: token.INT, Value: val.ExactString()}
 	case constant.Float:
-		return &ast.BasicLit{Kind: token.FLOAT, Value: val.String()}
+		// Note that val.String rounds to six significant digits.
+		if f, exact := constant.Float64Val(val); exact {
+			return &ast.BasicLit{Kind: token.FLOAT, Value: strconv.FormatFloat(f, 'g', -1, 64)}
+		}
+		// Not representable as a float64, like an untyped constant with more digits;
+		// keep many more digits than any floating point type can hold.
+		var bf big.Float
+		switch v := constant.Val(val).(type) {
+		case *big.Rat:
+			bf.SetPrec(512).SetRat(v)
+		case *big.Float:
+			bf.SetPrec(512).Set(v)
+		default:
+			return &ast.BasicLit{Kind: token.FLOAT, Value: val.String()}
+		}
+		return &ast.BasicLit{Kind: token.FLOAT, Value: bf.Text('g', 40)}
 	case constant.Complex:
 		return CallExprByName("complex", ConstToAst(constant.Real(val)), ConstToAst(constant.Imag(val)))
 	default:
